@@ -419,7 +419,10 @@ for rnd in range(3 if not THOROUGH else 12):
     verdict_case("honest", enc(ok), sdoc, n, n_prev)
     verdict_case("honest-no-previous-configured", enc(ok), None, n, n_prev, with_prev=False)
     verdict_case("replayed-request-id", enc(successor(skr, zskpol, n=n, rid=skr["id"])), sdoc, n, n_prev)
-    verdict_case("replayed-request-id-other-serial", enc(dict(successor(skr, zskpol, n=n, rid=skr["id"]), serial=7)), sdoc, n, n_prev)
+    rep_ = successor(skr, zskpol, n=n, rid=skr["id"])
+    rep_ = dict(rep_, bundles=[dict(b, id=f"fresh-{rnd}-{j}") for j, b in enumerate(rep_["bundles"])])
+    verdict_case("replayed-request-id-fresh-bundle-ids", enc(rep_), sdoc, n, n_prev)
+    verdict_case("replayed-request-id-other-serial", enc(dict(rep_, serial=7)), sdoc, n, n_prev)
     k = successor(skr, zskpol, n=n)
     k["bundles"][R.randrange(n)]["id"] = skr["bundles"][R.randrange(n_prev)]["id"]
     verdict_case("replayed-bundle-id", enc(k), sdoc, n, n_prev)
